@@ -99,5 +99,9 @@ func extras() *cdrive.FlatFamily {
 			"i = args.x", "while.outer i < 6 {", "i ~mod+= 1", "j = i", "while.inner true {", "j ~mod+= 1", "if j == 4 {", jm, "}", "this.q ~mod+= 1", "break.inner", "}.inner",
 			"this.f ~mod+= j", "}.outer", "this.q ~mod+= i")
 	}
+	// An iterate body that assigns to its own iterate variable (a terminating
+	// one; see cfg.Keep in main.go and known_findings.json).
+	f.Add("pub struct foo?(\nr : base.u8,\na : array[8] base.u8,\n)\n\npub func foo.m!(x: base.u32[..= 3]) {\nvar s : slice base.u8\nvar v : base.u8\n"+
+		"iterate (s = this.a[..])(length: 4, advance: 2, unroll: 1) {\ns = s[1 ..]\nv ~mod+= 1\n}\nthis.r = v\n}\n", map[string]string{"kind": "iterate variable assigned in the body"})
 	return f
 }
